@@ -99,6 +99,10 @@ def run(run):
                    ("deep-parens", b"class A { int f(){ return " + b"(" * 2000 + b"1" + b")" * 2000 + b"; } }"),
                    ("deep-blocks", b"class A { void f(){ " + b"{" * 1500 + b"}" * 1500 + b" } }"),
                    ("deep-binary", b"class A { int f(){ return " + b"1 + " * 1500 + b"1; } }"),
+                   # calls far down a fluent chain, where no method encloses them: a field initialiser, a static block, a constructor
+                   ("deep-fluent-field", b"class T { static final Object TABLE = Reg.builder()" + b"".join(b".put(\"k%d\", %d)" % (j, j) for j in range(3000)) + b".build(); }"),
+                   ("deep-fluent-static", b"class T { static Object t; static { t = Reg.builder()" + b"".join(b".put(\"k%d\", %d)" % (j, j) for j in range(2500)) + b".build(); } }"),
+                   ("deep-fluent-ctor", b"class T { Object t; T() { t = Reg.builder()" + b"".join(b".add(%d)" % j for j in range(2500)) + b".build(); } }"),
                    ("only-operators", b"+ - * / % == != < > <= >= && || & | ^ << >> >>>"),
                    ("half-statements", b"class A { void f(){ if ( while ( do for ( break continue yield assert return new ; } }"),
                    ("formal-params", b"class A { void f(int, , final x, int... y, @A int z) {} void g( {} }"),
